@@ -1,7 +1,7 @@
 // U-msg: acknowledged delivery (C09) against the abstract message table.
 //@@ unit U-msg
 //@@ default props=C09 rewrites=R1,R2,R3,R5,R13 ghost="Tracked(st): Tracked<&mut StoreAbs>" ghostarg="Tracked(st)"
-//@@ heapmethods query delete find create update time_millis
+//@@ heapmethods query delete find create update time_millis set_message clear_error_messages resend_error_messages ack
 use vstd::prelude::*;
 verus! {
 //@@ include prelude/store.rs
@@ -382,7 +382,7 @@ impl Store {
         //# K5-frame
         others_same(*old(st), *final(st)),
         //# K5-nothing-new-or-changed
-        forall|k: Seq<char>| final(st).messages.dom().contains(k) ==> old(st).messages.dom().contains(k) && final(st).messages[k] == old(st).messages[k],
+        forall|k: Seq<char>| #[trigger] final(st).messages.dom().contains(k) ==> old(st).messages.dom().contains(k) && final(st).messages[k] == old(st).messages[k],
         //# K5-only-selected-error-rows-deleted
         forall|k: Seq<char>| old(st).messages.dom().contains(k) && !msg_in_error(opt_view(pid))(old(st).messages[k]) ==> final(st).messages.dom().contains(k),
         //# K5-all-deleted
@@ -418,6 +418,71 @@ impl Store {
                 assert(__v1@[j].id@ == k);
             }
         }
+//@@ end
+}
+
+// ---- the client-facing entry points (export/executor/message_executor.rs, scheduler/runtime.rs): one-line wrappers, under contract so that a
+// change in WHICH store function (or which status) they reach is seen
+#[verifier::external_body]
+pub struct CacheM { _p: u8 }
+impl CacheM {
+    #[verifier::external_body]
+    pub fn store(&self) -> (r: &std::sync::Arc<Store>) { unimplemented!() }
+}
+pub struct Runtime { pub cache: std::sync::Arc<CacheM> }
+impl Runtime {
+    #[verifier::external_body]
+    pub fn cache(&self) -> (r: &std::sync::Arc<CacheM>) { unimplemented!() }
+//@@ extract file=acts/src/scheduler/runtime.rs in="impl Runtime" item="fn ack" name=Runtime::ack
+//@@ rw R7 `data :: MessageStatus :: Acked` => `MessageStatus::Acked`
+//@@ spec
+    requires old(st).wf()
+    ensures
+        //# K6-an-ack-touches-only-the-message-with-that-id
+        others_same(*old(st), *final(st)) && final(st).messages.dom() == old(st).messages.dom()
+            && forall|k: Seq<char>| k != id@ && old(st).messages.dom().contains(k) ==> final(st).messages[k] == old(st).messages[k],
+        //# K6-an-accepted-ack-marks-the-message-acked
+        ret is Ok && old(st).messages.dom().contains(id@) ==> status_set(old(st).messages[id@], final(st).messages[id@], MessageStatus::Acked),
+        //# K6-a-refused-ack-changes-nothing
+        ret is Err ==> final(st).messages == old(st).messages,
+//@@ end
+}
+pub struct MessageExecutor { pub runtime: std::sync::Arc<Runtime> }
+impl MessageExecutor {
+//@@ extract file=acts/src/export/executor/message_executor.rs in="impl MessageExecutor" item="fn ack" name=MessageExecutor::ack
+//@@ spec
+    requires old(st).wf()
+    ensures
+        //# K6-an-ack-touches-only-the-message-with-that-id
+        others_same(*old(st), *final(st)) && final(st).messages.dom() == old(st).messages.dom()
+            && forall|k: Seq<char>| k != id@ && old(st).messages.dom().contains(k) ==> final(st).messages[k] == old(st).messages[k],
+        //# K6-an-accepted-ack-marks-the-message-acked
+        ret is Ok && old(st).messages.dom().contains(id@) ==> status_set(old(st).messages[id@], final(st).messages[id@], MessageStatus::Acked),
+        //# K6-a-refused-ack-changes-nothing
+        ret is Err ==> final(st).messages == old(st).messages,
+//@@ end
+//@@ extract file=acts/src/export/executor/message_executor.rs in="impl MessageExecutor" item="fn clear" name=MessageExecutor::clear
+//@@ spec
+    requires old(st).wf(), sel_count(old(st).messages, msg_in_error(opt_view(pid))) <= 100000
+    ensures
+        //# K5-clear-frame
+        others_same(*old(st), *final(st)),
+        //# K5-clear-adds-and-changes-nothing
+        forall|k: Seq<char>| #[trigger] final(st).messages.dom().contains(k) ==> old(st).messages.dom().contains(k) && final(st).messages[k] == old(st).messages[k],
+        //# K5-clear-removes-only-selected-error-rows
+        forall|k: Seq<char>| old(st).messages.dom().contains(k) && !msg_in_error(opt_view(pid))(old(st).messages[k]) ==> final(st).messages.dom().contains(k),
+        //# K5-clear-removes-all-of-them
+        ret is Ok && old(st).query_ok ==> forall|k: Seq<char>| old(st).messages.dom().contains(k) && msg_in_error(opt_view(pid))(old(st).messages[k]) ==> !final(st).messages.dom().contains(k),
+//@@ end
+//@@ extract file=acts/src/export/executor/message_executor.rs in="impl MessageExecutor" item="fn redo" name=MessageExecutor::redo
+//@@ spec
+    requires old(st).wf(), sel_count(old(st).messages, msg_in_error(None)) <= 100000
+    ensures
+        //# K4-redo-touches-only-error-rows
+        others_same(*old(st), *final(st)) && final(st).messages.dom() == old(st).messages.dom()
+            && (forall|k: Seq<char>| old(st).messages.dom().contains(k) && old(st).messages[k].status != MessageStatus::Error ==> final(st).messages[k] == old(st).messages[k])
+            && (forall|k: Seq<char>| old(st).messages.dom().contains(k) ==> final(st).messages[k] == old(st).messages[k]
+                || final(st).messages[k] == redone(old(st).messages[k], final(st).messages[k].update_time)),
 //@@ end
 }
 
